@@ -716,3 +716,14 @@ def run(ctx):
     # function of its arguments, nothing carried over from earlier steps on the solver, the SDE wrapper or a module (rule of C13)
     from . import c13
     ctx.guard(c13.r13_4)
+
+
+_run_before_c13_r13_1 = run
+
+
+def run(ctx):
+    _run_before_c13_r13_1(ctx)
+    # nothing is kept on the solver or the SDE wrapper between evaluations (a memoised diffusion has no graph to a re-rooted state:
+    # the derivative-based Milstein term becomes zero and the step is Euler's; rule of C13)
+    from . import c13
+    ctx.guard(c13.r13_1)
